@@ -165,6 +165,44 @@ def scenario(rng, root, idx):
             'names': names, 'expect_missing': expect_missing}
 
 
+def mibdump_failures(sc, rc, err, inp):
+    """what the report, the exit status and the destination of one mibdump run must satisfy; returns (failures, report
+    categories or None when the report is unusable, whether the run was a refused --build-index)"""
+    out = []
+    cats = parse_report(err)
+    if '--build-index' in sc['opts'] and sc['format'] == 'pysnmp':
+        # the pysnmp generator cannot build an index: a usage error, before anything is compiled or written
+        left = listing(sc['dst'], sc['format'])
+        if rc != 64 or left:
+            out.append({'key': 'build-index-unsupported-format', 'what': 'mibdump --build-index with format %s: exit %d, destination %s (expected usage error 64, nothing written): %s' % (
+                sc['format'], rc, sorted(left), err[-200:].replace('\n', ' | ')), 'input': dict(inp, format=sc['format'], opts=sc['opts'])})
+        return out, None, True
+    if rc not in (0, 79):
+        out.append({'key': 'exit-code', 'what': 'mibdump exited with %d and no report: %s' % (rc, err[-300:].replace('\n', ' | ')),
+                    'input': dict(inp, format=sc['format'], opts=sc['opts'])})
+        return out, None, False
+    if any(v is None for v in cats.values()):
+        out.append({'key': 'report', 'what': 'report lines missing from stderr: %s' % [k for k, v in cats.items() if v is None], 'input': inp})
+        return out, None, False
+    if sc.get('expect_missing') and sc['expect_missing'] not in cats['missing'] + [x.split(' ')[0] for x in cats['failed']]:
+        out.append({'key': 'dependency-not-reported', 'what': 'with --no-dependencies the imported module %s has no source and is not '
+                    'borrowed, yet it is reported neither missing nor failed: %s' % (sc['expect_missing'], {k: v for k, v in cats.items() if v}),
+                    'input': inp})
+    bad = (cats['missing'] or cats['failed'])
+    if (rc == 0) != (not bad):
+        out.append({'key': 'exit-code', 'what': 'exit status %d with missing=%s failed=%s' % (rc, cats['missing'], cats['failed']), 'input': inp})
+    have = listing(sc['dst'], sc['format'])
+    suffix = {'json': '.json', 'pysnmp': '.py', 'null': None}[sc['format']]
+    want = set()
+    if suffix and '--dry-run' not in sc['opts'] and '--no-mib-writes' not in sc['opts']:
+        want = set(m + suffix for m in cats['compiled'] + cats['borrowed'])
+    index = set(f for f in have if f.startswith('index'))
+    if have - index != want:
+        out.append({'key': 'files', 'what': 'destination holds %s, report says created/borrowed %s (options %s)' % (
+            sorted(have - index), sorted(want), sc['opts']), 'input': inp})
+    return out, cats, False
+
+
 def library_statuses(sc):
     """the status map of an in-process library run wired as scripts/mibdump.py wires it (fresh destination)"""
     from pysmi.reader import getReadersFromUrls
@@ -308,40 +346,12 @@ def run(ctx):
             for o in sc['opts']:
                 res.count('opt:' + o)
             inp = {'args': sc['args'][1:], 'kind': sc['kind'], 'regen': sc['regen']}
-            cats = parse_report(err)
-            if '--build-index' in sc['opts'] and sc['format'] == 'pysnmp':
-                # the pysnmp generator cannot build an index: a usage error, before anything is compiled or written
+            fails, cats, usage = mibdump_failures(sc, rc, err, inp)
+            res.oracle_failures.extend(fails)
+            if usage:
                 res.count('mibdump:index-unsupported')
-                left = listing(sc['dst'], sc['format'])
-                if rc != 64 or left:
-                    res.oracle_failures.append({'key': 'build-index-unsupported-format', 'what': 'mibdump --build-index with format %s: exit %d, destination %s (expected usage error 64, nothing written): %s' % (
-                        sc['format'], rc, sorted(left), err[-200:].replace('\n', ' | ')), 'input': dict(inp, format=sc['format'], opts=sc['opts'])})
+            if usage or cats is None:
                 continue
-            if rc not in (0, 79):
-                key = 'exit-code'
-                res.oracle_failures.append({'key': key, 'what': 'mibdump exited with %d and no report: %s' % (rc, err[-300:].replace('\n', ' | ')),
-                                            'input': dict(inp, format=sc['format'], opts=sc['opts'])})
-                continue
-            if any(v is None for v in cats.values()):
-                res.oracle_failures.append({'key': 'report', 'what': 'report lines missing from stderr: %s' % [k for k, v in cats.items() if v is None], 'input': inp})
-                continue
-            if sc.get('expect_missing') and sc['expect_missing'] not in cats['missing'] + [x.split(' ')[0] for x in cats['failed']]:
-                res.oracle_failures.append({'key': 'dependency-not-reported', 'what': 'with --no-dependencies the imported module %s has no source and is not '
-                                            'borrowed, yet it is reported neither missing nor failed: %s' % (sc['expect_missing'], {k: v for k, v in cats.items() if v}),
-                                            'input': inp})
-            bad = (cats['missing'] or cats['failed'])
-            if (rc == 0) != (not bad):
-                res.oracle_failures.append({'key': 'exit-code', 'what': 'exit status %d with missing=%s failed=%s' % (rc, cats['missing'], cats['failed']), 'input': inp})
-            # files
-            have = listing(sc['dst'], sc['format'])
-            suffix = {'json': '.json', 'pysnmp': '.py', 'null': None}[sc['format']]
-            want = set()
-            if suffix and '--dry-run' not in sc['opts'] and '--no-mib-writes' not in sc['opts']:
-                want = set(m + suffix for m in cats['compiled'] + cats['borrowed'])
-            index = set(f for f in have if f.startswith('index'))
-            if have - index != want:
-                res.oracle_failures.append({'key': 'files', 'what': 'destination holds %s, report says created/borrowed %s (options %s)' % (
-                    sorted(have - index), sorted(want), sc['opts']), 'input': inp})
             # the library wired the same way
             try:
                 st = library_statuses(sc)
@@ -435,12 +445,13 @@ def replay(payload):
     key = payload.get('key', '')
     root = common.scratch_dir('c20r-')
     try:
-        if key == 'dependency-not-reported' and 'regen' in inp:
+        if 'regen' in inp and not key.startswith('mibcopy'):
+            # a mibdump scenario is drawn again from its seed (module set, files, options) and judged again
             sc = scenario(random.Random(inp['regen'][0]), root, inp['regen'][1])
             rc, err = run_cmd(sc['args'])
-            cats = parse_report(err)
-            reported = (cats.get('missing') or []) + [x.split(' ')[0] for x in (cats.get('failed') or [])]
-            return {'fails': bool(sc.get('expect_missing')) and sc['expect_missing'] not in reported, 'what': {k: v for k, v in cats.items() if v}}
+            fails, cats, usage = mibdump_failures(sc, rc, err, {'args': sc['args'][1:], 'kind': sc['kind'], 'regen': inp['regen']})
+            fails = [f for f in fails if f['key'] == key] or ([] if key else fails)
+            return {'fails': bool(fails), 'what': [f['what'][:200] for f in fails[:3]]}
         if key.startswith('mibcopy'):
             dst = os.path.join(root, 'dst')
             os.makedirs(dst)
